@@ -171,6 +171,10 @@ def p_lookup_path(I, args, kwargs, node):
     def rename(I2, target):
         I2.ghost["n_rename"] = I2.ghost["n_rename"] + 1
         I2.ghost["renamed_to"] = target.fields["name"]
+        if "rename_failed" in I2.ghost and not I2.ctx.choose():
+            # the file system may refuse (permission, the -new file vanished): OSError
+            I2.ghost["rename_failed"] = True
+            raise RaiseSig("OSError", info=["Path.rename"])
         return None
 
     def unlink(I2):
@@ -192,15 +196,18 @@ contract(
     EX + ".DiscStorage.persist",
     params={"self": "@OStorage", "name": "Str"},
     callees={"DiscStorage._lookup_path": p_lookup_path},
-    ghost={"vars": PG},
+    ghost={"vars": dict(PG, rename_failed="=False")},
     ensures={
         "looks-up-the-given-name [C13]": "looked_up == name",
         # C13: a persisted file is the -new file under the same hash and suffix, nothing else is renamed
         "nothing-renamed-when-missing-or-ambiguous [C13,C15]": "when(lookup_failed, n_rename == 0)",
         "renames-only-new-files [C13,C15]": "when(not lookup_failed, (n_rename == 1) == file.stem.endswith('-new')) and n_rename <= 1",
         "persisted-name-keeps-hash-and-suffix [C13]": "when(n_rename == 1, renamed_to == file.stem[:len(file.stem) - 4] + file.suffix)",
+        # C15: "Externals are persisted before the reference to them is written": a rename that fails must stop the session before
+        # fix_all() writes the reference - persist() may not return normally then
+        "a-failed-rename-is-not-swallowed [C15,C13]": "not rename_failed",
     },
-    raises={},
+    raises={"OSError": {"only-from-the-failed-rename [C15]": "rename_failed"}},
     frame=[],
     safety_props=["C18", "C13"],
     assumes=["X8"],
